@@ -85,6 +85,10 @@ func (w *WalletManager) constructTxIn(inputs []*TxIn, lockTime uint64) (*wire.Ms
 			return nil, nil, massutil.ZeroAmount(), ErrInvalidParameter
 		}
 
+		if int64(txIn.PreviousOutPoint.Index) >= int64(len(prevTx.TxOut)) {
+			logging.CPrint(logging.ERROR, "output index out of range", logging.LogFormat{"txid": input.TxId, "vout": input.Vout})
+			return nil, nil, massutil.ZeroAmount(), ErrInvalidIndex
+		}
 		prevTxOut := prevTx.TxOut[txIn.PreviousOutPoint.Index]
 		pks, err := utils.ParsePkScript(prevTxOut.PkScript, w.chainParams)
 		if err != nil {
@@ -307,6 +311,9 @@ func (w *WalletManager) estimateSignedSize(utxos []*txmgr.Credit, TxOutLen int) 
 		mtx, _, err := w.existsMsgTx(&txIn.PreviousOutPoint)
 		if err != nil {
 			return 0, err
+		}
+		if int64(txidx) >= int64(len(mtx.TxOut)) {
+			return 0, ErrInvalidIndex
 		}
 
 		pkScript := mtx.TxOut[txidx].PkScript
